@@ -28,9 +28,9 @@ EDGE_ONLY_FILTERS = ("none", "accept", "reject", "tagged_edge", "not_directed")
 def floors(ctx):
     if ctx.tier == "quick":
         return {"rows_single_link": 500, "evaluations": 5000, "corollary_pairs": 500, "equal_but_distinct_end_cases": 500,
-                "graphs_with_former_links": 20, "graphs_edited_in_place_with_warm_caches": 200}
+                "graphs_with_former_links": 20, "graphs_edited_in_place_with_warm_caches": 200, "fresh_interpreters_by_first_seen_link_class": 10}
     return {"rows_single_link": 500, "evaluations": 50000, "corollary_pairs": 5000, "equal_but_distinct_end_cases": 500,
-            "graphs_with_former_links": 20, "graphs_edited_in_place_with_warm_caches": 200}
+            "graphs_with_former_links": 20, "graphs_edited_in_place_with_warm_caches": 200, "fresh_interpreters_by_first_seen_link_class": 10}
 
 
 def _pos(link, v):
@@ -216,6 +216,64 @@ def edited_case(ctx, spec, edits, rng_seed):
                 return
 
 
+FIRST_SEEN = r"""
+import json, sys
+from egverif import common
+common.assert_repo_under_test()
+from egverif import graphs, oracles, zoo
+from egverif.oracles import DIRS, UNKS
+from edgegraph.traversal import helpers
+first, classes = sys.argv[1], json.loads(sys.argv[2])
+bad = []
+def judge(cname):
+    for (i, j) in ((0, 1), (1, 0), (0, 0)):
+        g = graphs.build({"verts": ["Vertex", "VSub"], "edges": [[cname, i, j, 0]], "uni": None})
+        for d in ("FORWARD", "ANY", "BACKWARD"):
+            for u in UNKS:
+                got = oracles.outcome(helpers.neighbors, g.verts[0], DIRS[d], UNKS[u], None)
+                exp = oracles.table_neighbors(g.verts[0], DIRS[d], UNKS[u], None)
+                if not oracles.matches(exp, got):
+                    bad.append([cname, [i, j], d, u, str(got[1] if got[0] == "exc" else g.names(got[1]))])
+judge(first)                       # the very first link class neighbors() meets in this interpreter
+for c in classes:
+    judge(c)
+print(json.dumps({"n": 9 * 3 * (1 + len(classes)), "bad": bad[:5]}))
+"""
+
+
+def first_seen_orders(ctx):
+    """
+    Process-wide history: the answer for a link must not depend on which link CLASS this interpreter happened to
+    query first (a base class before its subclasses, an unknown class before the known ones, ...).  One fresh
+    interpreter per first-seen class; then the one-link table for every class.
+    """
+    import json
+    import subprocess
+    import sys
+
+    from egverif import common
+
+    classes = list(graphs._ECLS)
+    import os
+
+    verif = os.path.dirname(os.path.dirname(os.path.dirname(os.path.abspath(__file__))))
+    env = dict(os.environ, PYTHONPATH=verif + os.pathsep + common.repo_dir(), PYTHONHASHSEED="0")
+    for first in classes:
+        r = subprocess.run([sys.executable, "-B", "-c", FIRST_SEEN, first, json.dumps(classes)], capture_output=True, text=True,
+                           timeout=300, env=env)
+        if r.returncode != 0:
+            raise RuntimeError("first-seen worker failed: " + r.stderr[-500:])
+        out = json.loads(r.stdout.strip().splitlines()[-1])
+        ctx.evaluated(out["n"])
+        ctx.count("fresh_interpreters_by_first_seen_link_class")
+        if out["bad"]:
+            cname, place, d, u, got = out["bad"][0]
+            ctx.violation(f"table:{d}:{u}:process_first_met:{first}",
+                          f"in an interpreter whose first neighbors() query met a {first}, neighbors() on a single {cname} at "
+                          f"placement {place} under {d}/{u} answers {got}: {len(out['bad'])}+ rows of the one-link table are wrong",
+                          {"kind": "first_seen", "first": first})
+
+
 def single_and_double_specs():
     classes = list(graphs._ECLS)
     placements = [(0, 1), (1, 0), (0, 0)]  # v0 is origin / destination / both
@@ -283,6 +341,8 @@ def run(ctx):
         for uname in UNKS:
             for fname in EDGE_ONLY_FILTERS:
                 corollary(ctx, g, uname, fname)
+    if ctx.shard == 0:
+        first_seen_orders(ctx)
     # ---- part 3: the table after in-place edits on warm caches ---------------
     for n in range(ctx.n(300 if ctx.tier == "quick" else 1500)):
         spec = graphs.rand_spec(rng, nmax=5, mmax=8, uni_mode="none", ecls=graphs.ECLS_ALL, self_p=0.25)
@@ -303,7 +363,9 @@ def run(ctx):
 
 def replay(ctx, case):
     g = graphs.build(case["spec"])
-    if case["kind"] == "edited":
+    if case["kind"] == "first_seen":
+        first_seen_orders(ctx)
+    elif case["kind"] == "edited":
         edited_case(ctx, case["spec"], case["edits"], case["rseed"])
     elif case["kind"] == "vertex":
         check_vertex(ctx, g, case["v"], case["dir"], case["unk"], case["filt"], case["cache"])
